@@ -137,7 +137,7 @@ def handle1 (op : String) (args : List Sexp) : Option String := do
       | _ => Option.none
   | "gets", [t, p, cls] =>
       match ← Val.ofSexp p with
-      | .cell (.str s) => pure (res (getItemC ((← cls.toNat?) != 0) (← Val.ofSexp t) (s.splitOn ".")))
+      | .cell (.str s) => pure (res (getItemC ((← cls.toNat?) != 0) (← Val.ofSexp t) (Tree.splitDots s)))
       | _ => Option.none
   | "tget", t :: p :: d :: _ =>
       match ← Val.ofSexp p with
@@ -149,7 +149,7 @@ def handle1 (op : String) (args : List Sexp) : Option String := do
       | _, _, _ => Option.none
   | "tsets", t :: p :: v :: ig :: _ =>
       match ← Val.ofSexp t, ← Val.ofSexp p, ← Val.ofSexp ig with
-      | .dict kvs, .cell (.str s), .list ig => pure (res ((treeSetItem kvs (s.splitOn ".") (← Val.ofSexp v) ig).map .dict))
+      | .dict kvs, .cell (.str s), .list ig => pure (res ((treeSetItem kvs (Tree.splitDots s) (← Val.ofSexp v) ig).map .dict))
       | _, _, _ => Option.none
   | _, _ => Option.none
 
